@@ -12,12 +12,25 @@ from pyvc.engine import Exec
 from pyvc import calls as calls_mod
 
 
-def _check(pc, goal, timeout_ms):
-  s = z3.Solver()
-  s.set('timeout', timeout_ms)
-  s.add(*pc)
-  s.add(z3.Not(goal))
-  return s.check(), s
+RETRY_SEEDS = (0, 7, 23)
+
+
+def _check(pc, goal, timeout_ms, seeds=(0,)):
+  """pc ∧ ¬goal; `unknown` is retried with other solver seeds (proof search is sensitive to
+  term order; a different seed is a different instantiation order, never a different logic)."""
+  r, s = z3.unknown, None
+  for seed in seeds:
+    s = z3.Solver()
+    s.set('timeout', timeout_ms)
+    if seed:
+      s.set('random_seed', seed)
+      s.set('smt.random_seed', seed)
+    s.add(*pc)
+    s.add(z3.Not(goal))
+    r = s.check()
+    if r != z3.unknown:
+      break
+  return r, s
 
 
 _sk = [0]
@@ -53,7 +66,8 @@ def _prove_split(pc, goal, timeout_ms, pivots=()):
   if len(parts) <= 1 and not pivots:
     return _check(pc, goal, timeout_ms)
   for g in parts:
-    r, s = _check(pc, g, min(timeout_ms, 3000) if pivots else timeout_ms)
+    r, s = _check(pc, g, min(timeout_ms, 3000) if pivots else timeout_ms,
+                  seeds=(0,) if pivots else RETRY_SEEDS)
     if r == z3.unknown and pivots:
       rp = _prove_pivots(pc, g, pivots, timeout_ms)
       if rp is not None:
